@@ -48,6 +48,7 @@ type ESel struct {
 type EQuant struct {
 	All    bool
 	Vars   []string
+	Types  []string // optional Go type of each bound variable ("*node"), "" for Int
 	Lo, Hi Expr // optional range for the (single) variable: Lo <= v < Hi
 	Body   Expr
 }
@@ -168,20 +169,34 @@ func (ps *parser) expectOp(s string) {
 func (ps *parser) quant() Expr {
 	if ps.isId("forall") || ps.isId("exists") {
 		all := ps.next().s == "forall"
-		var vars []string
+		var vars, types []string
 		for {
 			t := ps.next()
 			if t.kind != "id" {
 				ps.fail("expected bound variable, got %q", t.s)
 			}
 			vars = append(vars, t.s)
+			ty := ""
+			if ps.isOp(":") {
+				ps.p++
+				if ps.isOp("*") {
+					ps.p++
+					ty = "*"
+				}
+				tt := ps.next()
+				if tt.kind != "id" {
+					ps.fail("expected type name, got %q", tt.s)
+				}
+				ty += tt.s
+			}
+			types = append(types, ty)
 			if ps.isOp(",") {
 				ps.p++
 				continue
 			}
 			break
 		}
-		q := &EQuant{All: all, Vars: vars}
+		q := &EQuant{All: all, Vars: vars, Types: types}
 		if ps.isId("in") {
 			ps.p++
 			q.Lo = ps.add()
